@@ -18,6 +18,7 @@ type Ctx struct {
 	results   []*types.Var
 	fnContract *FuncContract // contract whose loops / closures are looked up
 	loopOrd   map[ast.Stmt]int
+	ifOrd     map[*ast.IfStmt]int
 	closureOrd map[*ast.FuncLit]int
 	label     string
 }
@@ -439,6 +440,23 @@ func (e *Engine) execIf(st *State, n *ast.IfStmt, cx *Ctx) *State {
 		}
 	}
 	c := e.nameQ("c", e.asBool(e.eval(st, n.Cond), n.Cond))
+	// guard specifications: the condition is equivalent to its specification
+	if cx.fnContract != nil && cx.ifOrd != nil {
+		if ord, ok := cx.ifOrd[n]; ok {
+			for _, g := range cx.fnContract.guards[ord] {
+				m := e.beginScope()
+				tmp := st.clone()
+				spec := e.evalClause(tmp, g.spec, nil)
+				goal := Eq(c, spec)
+				if g.when != nil {
+					goal = Implies(e.evalClause(tmp, g.when, nil), goal)
+					g.when.fired++
+				}
+				e.oblige(tmp, "guard", "if#"+fmt.Sprint(ord)+" "+g.spec.text, goal, n.Pos(), g.spec)
+				e.endScope(m)
+			}
+		}
+	}
 	if c.s == "true" {
 		return e.execBlock(st, n.Body.List, cx)
 	}
@@ -471,7 +489,7 @@ func (e *Engine) execSwitch(st *State, n *ast.SwitchStmt, cx *Ctx) *State {
 		tagT = e.typeOf(n.Tag)
 	}
 	var outs []*State
-	inner := &Ctx{continues: nil, fnContract: cx.fnContract, loopOrd: cx.loopOrd, closureOrd: cx.closureOrd, results: cx.results, defers: cx.defers}
+	inner := &Ctx{continues: nil, fnContract: cx.fnContract, loopOrd: cx.loopOrd, ifOrd: cx.ifOrd, closureOrd: cx.closureOrd, results: cx.results, defers: cx.defers}
 	cur := st
 	var deflt *ast.CaseClause
 	for _, cs := range n.Body.List {
@@ -532,7 +550,7 @@ func (e *Engine) execTypeSwitch(st *State, n *ast.TypeSwitchStmt, cx *Ctx) *Stat
 	if !ok {
 		e.fail(n, "type switch on non-interface")
 	}
-	inner := &Ctx{fnContract: cx.fnContract, loopOrd: cx.loopOrd, closureOrd: cx.closureOrd, results: cx.results, defers: cx.defers}
+	inner := &Ctx{fnContract: cx.fnContract, loopOrd: cx.loopOrd, ifOrd: cx.ifOrd, closureOrd: cx.closureOrd, results: cx.results, defers: cx.defers}
 	var outs []*State
 	cur := st
 	var deflt *ast.CaseClause
@@ -904,12 +922,16 @@ func (e *Engine) execFor(st *State, n *ast.ForStmt, cx *Ctx) *State {
 	} else {
 		exit = nil
 	}
-	inner := &Ctx{fnContract: cx.fnContract, loopOrd: cx.loopOrd, closureOrd: cx.closureOrd, results: cx.results, defers: cx.defers}
+	inner := &Ctx{fnContract: cx.fnContract, loopOrd: cx.loopOrd, ifOrd: cx.ifOrd, closureOrd: cx.closureOrd, results: cx.results, defers: cx.defers}
 	iterStart := body.clone()
 	out := e.execBlock(body, n.Body.List, inner)
+	for _, ps := range append([]*State{out}, inner.continues...) {
+		if ps != nil {
+			e.checkSteps(ps, iterStart, lc, n.Pos()) // per path: simpler conditions than on the merged state
+		}
+	}
 	back := e.merge(append([]*State{out}, inner.continues...))
 	if back != nil {
-		e.checkSteps(back, iterStart, lc, n.Pos())
 		if n.Post != nil {
 			back = e.execStmt(back, n.Post, inner)
 		}
@@ -947,7 +969,7 @@ func (e *Engine) execUnrolled(st *State, n *ast.ForStmt, cx *Ctx, count int) *St
 			e.oblige(cur, "unwind", fmt.Sprintf("loop runs at most %d times", count), tFalse, n.Pos(), nil)
 			break
 		}
-		inner := &Ctx{fnContract: cx.fnContract, loopOrd: cx.loopOrd, closureOrd: cx.closureOrd, results: cx.results, defers: cx.defers}
+		inner := &Ctx{fnContract: cx.fnContract, loopOrd: cx.loopOrd, ifOrd: cx.ifOrd, closureOrd: cx.closureOrd, results: cx.results, defers: cx.defers}
 		out := e.execBlock(cur, n.Body.List, inner)
 		cur = e.merge(append([]*State{out}, inner.continues...))
 		if cur != nil && n.Post != nil {
@@ -1059,15 +1081,22 @@ func (e *Engine) execRange(st *State, n *ast.RangeStmt, cx *Ctx) *State {
 		if valObj != nil {
 			body.vars[valObj] = e.loadElemCopy(body, blk, Add(off, i), elem)
 		}
-		inner := &Ctx{fnContract: cx.fnContract, loopOrd: cx.loopOrd, closureOrd: cx.closureOrd, results: cx.results, defers: cx.defers}
+		inner := &Ctx{fnContract: cx.fnContract, loopOrd: cx.loopOrd, ifOrd: cx.ifOrd, closureOrd: cx.closureOrd, results: cx.results, defers: cx.defers}
 		iterStart := body.clone()
 		out := e.execBlock(body, n.Body.List, inner)
+		for _, ps := range append([]*State{out}, inner.continues...) {
+			if ps != nil {
+				if iterObj != nil {
+					ps.vars[iterObj] = IntV{i}
+				}
+				e.checkSteps(ps, iterStart, lc, n.Pos())
+			}
+		}
 		back := e.merge(append([]*State{out}, inner.continues...))
 		if back != nil {
 			if iterObj != nil {
 				back.vars[iterObj] = IntV{i}
 			}
-			e.checkSteps(back, iterStart, lc, n.Pos())
 			back.vars[idxObj] = IntV{Add(i, I(1))}
 			bindHead(back)
 			e.checkInvariants(back, lc, "inv-pres", n.Pos())
